@@ -182,6 +182,10 @@ CHECKS["C04"]["stages"].append(
     {"name": "tcp-isolation", "pkg": "srvworld", "run": "^TestC04TCP$",
      "quick": {"shards": 2, "checks": 2000, "timeout_s": 420},
      "thorough": {"shards": 8, "checks": 6000, "size": 40, "timeout_s": 2400}})
+CHECKS["C04"]["stages"].append(
+    {"name": "allocation-key", "pkg": "pure", "run": "^TestC04Fingerprint$",
+     "quick": {"shards": 2, "checks": 2000, "timeout_s": 300},
+     "thorough": {"shards": 8, "checks": 20000, "timeout_s": 1200}})
 CHECKS["C03"]["stages"].append(
     {"name": "nonce-managers", "pkg": "pure", "run": "^TestC03Nonce$",
      "quick": {"shards": 2, "checks": 600, "timeout_s": 300},
